@@ -238,6 +238,45 @@ int main(void) {
   report_to("main"); return 90 + (int)(dg % 9);
 }
 ''',
+    # ---- the descriptor table is shared with libmcount (pipe to uftrace, log stream, shared-memory files): everything the program
+    # does to ITS descriptors - 0, 1, 2 and the ones it opened - must have the native result (return value, errno, lowest-free rule
+    # where the data goes); a closefrom-style loop also hits libmcount's own descriptors, whose results are not digested
+    "fds": r'''#include <fcntl.h>
+#include <sys/stat.h>
+NOINL long leaf(long x) { return x * 3 + 1; }
+static void rv(long r) { mix((uint64_t)r); mix(r < 0 ? (uint64_t)errno : 0); }
+int main(void) {
+  char path[512]; struct stat st; int keep0, keep1, keep2, a, b, i;
+  snprintf(path, sizeof path, "%s.err", getenv("VERIF_OUT") ? getenv("VERIF_OUT") : "c01fds");
+  keep0 = dup(0); keep1 = dup(1); keep2 = dup(2); rv(keep0); rv(keep1); rv(keep2);      /* 3, 4, 5: lowest-free rule (fix C01-10) */
+  /* the redirect idiom: close(2); open() */
+  rv(close(2)); leaf(1);
+  rv(open(path, O_WRONLY | O_CREAT | O_TRUNC, 0600));
+  rv(write(2, "to-err-file\n", 12)); fprintf(stderr, "via stdio %d\n", (int)leaf(2)); fflush(stderr);
+  rv(fstat(2, &st)); mix((uint64_t)st.st_size); mix(S_ISREG(st.st_mode));
+  rv(close(2)); rv(close(2)); rv(fcntl(2, F_GETFD)); rv(write(2, "lost\n", 5));
+  rv(dup2(keep2, 2)); rv(fcntl(2, F_GETFD));
+  /* a daemon's start: close(0..2), reopen on /dev/null */
+  for (i = 0; i < 3; i++) rv(close(i));
+  leaf(3);
+  rv(open("/dev/null", O_RDWR)); rv(dup(0)); rv(dup(0)); rv(write(1, "x", 1)); rv(write(2, "y", 1));
+  for (i = 2; i >= 0; i--) rv(close(i));
+  rv(close(1)); rv(dup(keep0)); rv(dup2(keep1, 1)); rv(dup2(keep2, 2)); rv(dup2(2, 2)); rv(dup2(77, 2));
+  /* lowest-free rule and descriptor flags below 3 */
+  rv(close(0)); rv(close(1)); rv(dup(keep1)); rv(dup(keep1)); rv(close(0)); rv(dup2(keep0, 0));
+  rv(fcntl(0, F_SETFD, FD_CLOEXEC)); rv(fcntl(0, F_GETFD)); rv(fcntl(0, F_SETFD, 0)); rv(fcntl(0, F_GETFD));
+  rv(close(1)); rv(fcntl(keep1, F_DUPFD, 0)); rv(close(-1));
+  /* closefrom(3)-style loop: only the results for OUR descriptors count */
+  a = open("/dev/null", O_RDONLY); b = dup(a); rv(a); rv(b);
+  for (i = 3; i < 64; i++) { int r = close(i); if (i == a || i == b || i == keep0 || i == keep1 || i == keep2) rv(r); }
+  rv(fstat(a, &st)); rv(fstat(keep2, &st)); rv(close(b));
+  for (i = 0; i < 3; i++) rv(fcntl(i, F_GETFD));
+  mix(leaf(5));
+  if (stat(path, &st) == 0) mix((uint64_t)st.st_size);
+  unlink(path);
+  report_to("main"); return 20 + (int)(dg % 30);
+}
+''',
 }
 
 
@@ -260,5 +299,6 @@ PLAN = {
     "tlsdtor": ["plain", "nest-libcall", "estimate-return", "script", "no-libcall"],
     "jmp": ["plain", "nest-libcall", "estimate-return", "max-stack", "script", "depth", "time", "args"],
     "sigjmp": ["plain", "nest-libcall", "estimate-return", "script", "depth", "small-buffer"],
+    "fds": ["plain", "no-libcall", "nest-libcall", "estimate-return", "script", "args", "small-buffer", "logfile", "libargs"],
 }
 
